@@ -211,6 +211,12 @@ def event_sets(pname, taus, thorough):
                 t2 = np.pi - tau + 2 * np.pi * k
                 sets.append([dict(kind="state", tau=tau), dict(kind="time", tau=float(t2))])
                 sets.append([dict(kind="time", tau=float(t2)), dict(kind="state", tau=tau)])
+    if pname == "osc":
+        # derivative-dependent functions next to each other and next to plain ones, in every position of the list
+        sets.append([dict(kind="dstate", tau=taus[0]), dict(kind="state", tau=taus[1])])
+        sets.append([dict(kind="state", tau=taus[1]), dict(kind="dstate", tau=taus[0])])
+        sets.append([dict(kind="dstate", tau=taus[0]), dict(kind="time", tau=taus[1]), dict(kind="dstate", tau=taus[2])])
+        sets.append([dict(kind="dstate", tau=taus[2]), dict(kind="dstate", tau=taus[0])])
     # three simultaneous
     sets.append([dict(kind="time", tau=taus[0]), dict(kind="state", tau=taus[1]), dict(kind="time", tau=taus[2])])
     sets.append([dict(kind="state", tau=taus[2]), dict(kind="time", tau=taus[1]), dict(kind="state", tau=taus[1])])
@@ -243,6 +249,9 @@ def cells(quick):
                                 out.append(dict(problem=pname, span=list(span), dt0=dt0, method=m, dense=dense, dtype="float64", events=evs, tol=1e-8, against=(k_cell % 3 == 1)))
                                 if quick and s == 1.0 and dr == 0 and m in ("RK4Solver", "RK45CKSolver") and dense:
                                     out.append(dict(problem=pname, span=list(span), dt0=dt0, method=m, dense=dense, dtype="longdouble", events=evs, tol=1e-8, against=(k_cell % 2 == 0)))
+                                    if abs(span[0]) > 30:
+                                        # single precision far from the origin: one unit in the last place of t is 4e-6, the coarsest time axis in the alphabet
+                                        out.append(dict(problem=pname, span=list(span), dt0=dt0, method=m, dense=dense, dtype="float32", events=evs, tol=1e-4))
     if not quick:
         extra = []
         for c in out:
